@@ -14,6 +14,8 @@ NASTY = [
     "#", "#0", "#a", "-", "*", "$", "@", "^", "_", "?", "..", ".", "[", "]", ",", ":",
     "and", "or", "not", "in", "true", "false", "null", "nil", "none", "None", "True",
     "length", "count", "contains", "undefined", "missing", "a-b", "a b", "A",
+    # names that differ from their own Unicode normal forms / case foldings (and the forms they would collapse into)
+    "e\u0301", "\u212b", "\u00c5", "\u2126", "\u03a9", "\ufb01", "fi", "\u1e9b\u0323", "\u0130", "i\u0307", "\u00df", "ss", "\u1e9e",
 ]
 
 INT_LIKE = ["0", "1", "2", "-1", "+1", " 1", "01", "-0", "1_0", "\uff11", "10", "1\u0663", "1\uff11", "13", "11"]
